@@ -65,13 +65,28 @@ def expectedURI (uri : Bytes) (reqP clientP : List KV) : Bytes :=
 def pathValueSafe (v : Bytes) : Bool :=
   !v.isEmpty && v.all unreserved && v != b "." && v != b ".."
 
-/-- the placeholder reading of the template is unambiguous: keys are names, and no configured key
-    is a proper prefix of a placeholder name (`:idx` with a key `id`) -/
+/-- what may follow a ':' construct: after a placeholder or a literal ':' comes the end or a literal
+    byte that cannot continue a name — a placeholder directly behind one of them would glue its
+    value to that ':' (`::a`, `:a:b`) and the text could be read as another placeholder -/
+def adjOK : List Tok → Bool
+  | [] => true
+  | [_] => true
+  | t :: u :: rest =>
+    (match t, u with
+      | .ph _, .lit d => !nameByte d
+      | .ph _, .ph _ => false
+      | .lit c, .lit d => c != 58 || !nameByte d
+      | .lit c, .ph _ => c != 58) && adjOK (u :: rest)
+
+/-- the placeholder reading of the template is unambiguous for the configured keys: keys are
+    non-empty names; no placeholder stands directly behind another ':' construct; and a key that is
+    a proper prefix of a placeholder name (`id` in `:idx`) is harmless because that name is a key
+    too (being longer it is substituted first) -/
 def templateOK (uri : Bytes) (keys : List Bytes) : Bool :=
-  keys.all (fun k => !k.isEmpty && k.all nameByte) &&
+  keys.all (fun k => !k.isEmpty && k.all nameByte) && adjOK (tokenize uri) &&
   (tokenize uri).all fun t => match t with
     | .lit _ => true
-    | .ph n => keys.all fun k => !(k.isPrefixOf n && k != n)
+    | .ph n => keys.all fun k => !(k.isPrefixOf n && k != n) || keys.contains n
 
 /-- placeholder names of the template that some level configures -/
 def usedValues (uri : Bytes) (reqP clientP : List KV) : List Bytes :=
@@ -114,14 +129,45 @@ def sortedBy (l : List (Bytes × Bytes × Bytes)) : List (Bytes × Bytes × Byte
 
 def sortedKV (l : List KV) : List KV := l.mergeSort fun a c => !bytesLt c.1 a.1
 
-/-- the assembly clauses on one arrived request. `uri0` is the absolute URL template (base URL
-    joined, query split off), `urlArgs` the query arguments written in the URL itself. -/
-def specAsm (c : Config) (uri0 : Bytes) (urlArgs : List KV) (o : AsmObs) : Option String :=
-  let want := expectedURI uri0 c.request.pathParams c.client.pathParams
-  let hp := hostPath want
+/-- host and everything behind it of `http(s)://host[/path]` — the path the property expects is the
+    template's path with the values put in, whatever bytes the values consist of -/
+def specHostPath (u : Bytes) : Bytes × Bytes :=
+  let rest := if hasPrefix u (b "https://") then u.drop 8 else u.drop 7
+  match indexByte rest 47 with
+  | some i => (rest.take i, rest.drop i)
+  | none => (rest, [47])
+
+/-- cookies: per name the request's value, else the client's, else the jar's; nothing missing, no name twice -/
+def cookiesArrive (c : Config) (got : List KV) : Bool :=
+  (got.map (·.1)).all (fun k =>
+    mapGet got k == (match mapGet c.request.cookies k with
+      | some v => some v
+      | none => match mapGet c.client.cookies k with
+        | some v => some v
+        | none => mapGet c.jar k)) &&
+  (c.request.cookies ++ c.client.cookies ++ c.jar).all (fun kv => (mapGet got kv.1).isSome) &&
+  decide (got.map (·.1)).Nodup
+
+/-- the body clauses -/
+def bodyArrives (c : Config) (o : AsmObs) : Option String :=
+  match effectiveBody c.body, o.body with
+  | .none, .bytes [] => none
+  | .raw bs, .bytes got => if got = bs then none else some "body-arrives"
+  | .form fs, .bytes got =>
+    if o.contentType ≠ b "application/x-www-form-urlencoded" then some "form-content-type"
+    else if !sameValuesPerKey ((parseArgsNV got).map fun a => (a.key, a.value)) fs then some "form-fields-arrive"
+    else none
+  | .files fs fl, .multipart gotF gotFiles =>
+    if o.contentType ≠ b "multipart/form-data" then some "multipart-content-type"
+    else if !sameValuesPerKey gotF fs then some "form-fields-arrive"
+    else if sortedBy gotFiles ≠ sortedBy (fileFieldNames fl) then some "files-arrive"
+    else none
+  | _, _ => some "body-arrives"
+
+/-- every clause but the URL ones on one arrived request. `urlArgs` = the query arguments written
+    in the URL itself. -/
+def specAsmRest (c : Config) (urlArgs : List KV) (o : AsmObs) : Option String :=
   if o.method ≠ c.method then some "method-arrives"
-  else if o.host ≠ hp.1 then some "host-arrives"
-  else if o.path ≠ hp.2 then some "path-parameter-arrives(request-over-client)"
   else if !sameValuesPerKey o.headers (c.client.headers ++ c.request.headers) then
     some "headers-arrive(request-in-addition)"
   else if !sameValuesPerKey o.query (urlArgs ++ c.client.params ++ c.request.params) then
@@ -131,28 +177,37 @@ def specAsm (c : Config) (uri0 : Bytes) (urlArgs : List KV) (o : AsmObs) : Optio
     some "user-agent(request-over-client)"
   else if o.referer ≠ (if c.request.referer ≠ [] then c.request.referer else c.client.referer) then
     some "referer(request-over-client)"
-  else if !((o.cookies.map (·.1)).all (fun k =>
-              mapGet o.cookies k == (match mapGet c.request.cookies k with
-                | some v => some v
-                | none => match mapGet c.client.cookies k with
-                  | some v => some v
-                  | none => mapGet c.jar k)) &&
-            (c.request.cookies ++ c.client.cookies ++ c.jar).all (fun kv => (mapGet o.cookies kv.1).isSome) &&
-            o.cookies.length == ((o.cookies.map (·.1)).eraseDups).length) then
-    some "cookies-arrive(request-over-client-over-jar)"
-  else match effectiveBody c.body, o.body with
-    | .none, .bytes [] => none
-    | .raw bs, .bytes got => if got = bs then none else some "body-arrives"
-    | .form fs, .bytes got =>
-      if o.contentType ≠ b "application/x-www-form-urlencoded" then some "form-content-type"
-      else if !sameValuesPerKey ((parseArgsNV got).map fun a => (a.key, a.value)) fs then some "form-fields-arrive"
-      else none
-    | .files fs fl, .multipart gotF gotFiles =>
-      if o.contentType ≠ b "multipart/form-data" then some "multipart-content-type"
-      else if !sameValuesPerKey gotF fs then some "form-fields-arrive"
-      else if sortedBy gotFiles ≠ sortedBy (fileFieldNames fl) then some "files-arrive"
-      else none
-    | _, _ => some "body-arrives"
+  else if !cookiesArrive c o.cookies then some "cookies-arrive(request-over-client-over-jar)"
+  else bodyArrives c o
+
+/-- the URL clauses: host and path of the template (`uri0` = absolute URL template, base URL joined,
+    query split off) with the path parameters put in, request level over client level -/
+def specAsmURL (c : Config) (uri0 : Bytes) (o : AsmObs) : Option String :=
+  let want := expectedURI (split2 uri0 35).1 c.request.pathParams c.client.pathParams
+  let hp := specHostPath want
+  if o.host ≠ hp.1 then some "host-arrives"
+  else if o.path ≠ hp.2 then some "path-parameter-arrives(request-over-client)"
+  else none
+
+/-- the assembly clauses on one arrived request; the URL clauses come last so that the known finding
+    about unescaped path-parameter values (K2) hides no other clause -/
+def specAsm (c : Config) (uri0 : Bytes) (urlArgs : List KV) (o : AsmObs) : Option String :=
+  match specAsmRest c urlArgs o with
+  | some cl => some cl
+  | none => specAsmURL c uri0 o
+
+/-- what a server sees of an assembled request (the form body parsed as fasthttp parses arguments,
+    multipart parts as written) -/
+def arrived (a : Assembled) : AsmObs :=
+  { method := a.method, host := a.host, path := a.path,
+    query := (parseArgsNV a.rawQuery).map fun x => (x.key, x.value),
+    headers := a.headers, userAgent := a.userAgent, referer := a.referer, cookies := a.cookies,
+    contentType := a.contentType,
+    body := match a.body with
+      | .none => .bytes []
+      | .raw bs => .bytes bs
+      | .form fs => .bytes (renderArgsNV (fs.map argOf))
+      | .files fs fl => .multipart fs (fileFieldNames fl) }
 
 /-- timeout precedence: request level over client level -/
 def effectiveTimeout (c : Config) : Nat :=
@@ -198,11 +253,13 @@ def specGet (j : AbsJar) (host path : Bytes) (now : Nat) : List Cookie :=
 def implGet (j : AbsJar) (host path : Bytes) (now : Nat) : List Cookie :=
   (absGetHost j (hostKey host)).filter fun c => !expiredAt now c && implPathOK path c.path
 
-/-- a lookup drops the expired cookies of the host -/
-def absPurge (j : AbsJar) (host : Bytes) (now : Nat) : AbsJar :=
-  match j.find? (·.1 = hostKey host) with
+/-- a lookup drops the expired cookies stored under the host key -/
+def absPurgeK (j : AbsJar) (key : Bytes) (now : Nat) : AbsJar :=
+  match j.find? (·.1 = key) with
   | none => j
-  | some _ => absPut j (hostKey host) ((absGetHost j (hostKey host)).filter fun c => !expiredAt now c)
+  | some _ => absPut j key ((absGetHost j key).filter fun c => !expiredAt now c)
+
+def absPurge (j : AbsJar) (host : Bytes) (now : Nat) : AbsJar := absPurgeK j (hostKey host) now
 
 def absStep (now : Nat) (j : AbsJar) : JarOp → AbsJar
   | .set host c => absSet j host c
@@ -225,17 +282,92 @@ def implObsOf (now : Nat) (j : AbsJar) : JarOp → JarObs
   | .resp host reqPath _ => .header (renderCookieHeader (cookieHeaderOf (implGet j host reqPath now)))
   | _ => .done
 
-/-- compare a history of observations with the property; `(clause, attributableToK1)` -/
-def specJar (now : Nat) : AbsJar → List JarOp → List JarObs → Option (String × Bool)
+/-! ### timed histories: every operation happens at its own time, cookies expire in between -/
+
+/-- the answers the property demands along a history -/
+def specRunT : AbsJar → List (Nat × JarOp) → List JarObs
+  | _, [] => []
+  | j, (now, op) :: h => specObs now j op :: specRunT (absStep now j op) h
+
+/-- the same with the path test as the code writes it -/
+def implRunT : AbsJar → List (Nat × JarOp) → List JarObs
+  | _, [] => []
+  | j, (now, op) :: h => implObsOf now j op :: implRunT (absStep now j op) h
+
+/-- `specJar` for timed histories -/
+def specJarT : AbsJar → List (Nat × JarOp) → List JarObs → Option (String × Bool)
   | _, [], [] => none
-  | j, op :: ops, o :: os =>
-    if o = specObs now j op then specJar now (absStep now j op) ops os
+  | j, (now, op) :: ops, o :: os =>
+    if o = specObs now j op then specJarT (absStep now j op) ops os
     else
-      let k1 := o = implObsOf now j op
       some ((match op with
         | .resp .. => "jar-sends-exactly-the-matching-cookies"
-        | _ => "jar-returns-exactly-the-matching-cookies"), k1)
+        | _ => "jar-returns-exactly-the-matching-cookies"), o = implObsOf now j op)
   | _, _, _ => some ("observation-count", false)
+
+/-- compare a constant-time history of observations with the property; `(clause, attributableToK1)` -/
+def specJar (now : Nat) (j : AbsJar) (ops : List JarOp) (os : List JarObs) : Option (String × Bool) :=
+  specJarT j (ops.map fun op => (now, op)) os
+
+/-- host and path an operation looks up -/
+def lookupOf : JarOp → Option (Bytes × Bytes)
+  | .get h p => some (h, p)
+  | .getRelease h p => some (h, p)
+  | .resp h p _ => some (h, p)
+  | _ => none
+
+namespace Known
+
+/-- K1 at one operation: a lookup meets a stored, unexpired cookie of that host on which the
+    reversed path test of `getByHostAndPath` and the property's prefix test disagree -/
+def k1At (now : Nat) (j : AbsJar) (op : JarOp) : Bool :=
+  match lookupOf op with
+  | some (host, path) =>
+    (absGetHost j (hostKey host)).any fun c =>
+      !expiredAt now c && (implPathOK path c.path != specPathOK path c.path)
+  | none => false
+
+/-- **K1 region** of a history (known finding: reversed path test, pinned by Test_CookieJarGet) -/
+def K1 : AbsJar → List (Nat × JarOp) → Bool
+  | _, [] => false
+  | j, (now, op) :: h => k1At now j op || K1 (absStep now j op) h
+
+end Known
+
+/-- the host key an operation works on (`none`: `Release`, which empties the whole jar) -/
+def opKey : JarOp → Option Bytes
+  | .set h _ => some (hostKey h)
+  | .setKV h _ _ => some (hostKey h)
+  | .resp h _ _ => some (hostKey h)
+  | .get h _ => some (hostKey h)
+  | .getRelease h _ => some (hostKey h)
+  | .releaseJar => none
+
+/-- operations that concern host key `k` -/
+def concerns (k : Bytes) (op : JarOp) : Bool :=
+  match opKey op with
+  | some k' => k' == k
+  | none => true
+
+/-- the part of a history that concerns host key `k` -/
+def projHist (k : Bytes) (h : List (Nat × JarOp)) : List (Nat × JarOp) := h.filter fun e => concerns k e.2
+
+/-- the observations of the operations that concern host key `k` -/
+def projObs (k : Bytes) : List (Nat × JarOp) → List JarObs → List JarObs
+  | e :: h, o :: os => if concerns k e.2 then o :: projObs k h os else projObs k h os
+  | _, _ => []
+
+/-- the cookies an operation offers to the jar -/
+def offered : JarOp → List Cookie
+  | .set _ c => [c]
+  | .setKV _ name value => [{ name := name, value := value, path := [], expiry := none }]
+  | .resp _ _ scs => scs
+  | _ => []
+
+/-- what a lookup returned (the cookies of `Get`; nothing for the other operations) -/
+def returned : JarObs → List Cookie
+  | .cookies cs => cs
+  | _ => []
 
 /-! ## (c) responses belong to their requests -/
 
